@@ -41,7 +41,7 @@ def small_model(rng):
     return m
 
 STYLES = ["1.1", "1.1", "1.1c", "1.1c", "1.1i", "1.1u", "1.0"]
-REDESC = ["identity", "vertex_perm", "triangle_order", "triangle_rotation", "mesh_flip", "mesh_order", "interface_order",
+REDESC = ["identity", "vertex_perm", "triangle_order", "triangle_rotation", "mesh_flip", "local_flips", "local_flips", "mesh_order", "interface_order",
           "domain_order", "boundary_order", "rename"]
 
 def damage(m, rng):
